@@ -308,6 +308,9 @@ func (w *world) emitShim() string {
 		if _, ok := f.obj.Type().(*types.Signature); !ok {
 			continue
 		}
+		if emitted[spec.Name] {
+			continue
+		}
 		fmt.Fprintf(&sb, "\t%q: %s,\n", spec.Name, spec.Name)
 		emitted[spec.Name] = true
 	}
